@@ -312,7 +312,7 @@ theorem dtc_frame_decodes (std : Nat) (a : DtcArgs) (r : Request) (view : Spec.S
 
 /-! ### RequestFileTransfer -/
 
-/-- layout of the request (`_partial`: the Spec-decoder round trip for this service is established by the correspondence suite only):
+/-- layout of the request (a lemma of `rft_frame_decodes` below; the name is kept from the time when the Spec round trip was not proved):
     `38 moop len16 path [dfi] [width uncompressed compressed]`, the DataFormatIdentifier defaulting to 0x00 when the mode takes one,
     both sizes on `width` bytes big-endian -/
 theorem rft_layout_partial (moop : Int) (path : Bytes) (dfi : Option Nat) (fs : Option FilesizeArg) (r : Request)
@@ -349,6 +349,107 @@ theorem rft_layout_partial (moop : Int) (path : Bytes) (dfi : Option Nat) (fs : 
     obtain ⟨wb, ⟨hw, rfl⟩, ub, ⟨hult, rfl⟩, cb, ⟨hclt, rfl⟩, rfl⟩ := hf2
     have hw' : g.width < 256 := by simpa using hw
     refine ⟨by simp [toBE, Nat.mod_eq_of_lt hw'], hult, hclt, hw'⟩
+
+theorem decodeNoSubfn_rft (view : Spec.SrvView) (p : Bytes) : Spec.decodeNoSubfn view 0x38 p = Spec.decodeRft p := by
+  simp [Spec.decodeNoSubfn]
+
+theorem rftNormalize_both (x : Int ⊕ FilesizeObj) (f : FilesizeObj) (h : rftNormalizeSize x = .ok f) :
+    ∃ u c, f.uncompressed = some u ∧ f.compressed = some c := by
+  simp only [rftNormalizeSize, bind_ok, guardPy_ok] at h
+  obtain ⟨f0, _, _, hu, hd⟩ := h
+  cases hu0 : f0.uncompressed with
+  | none => simp [hu0] at hu
+  | some u =>
+    unfold rftDefaultCompressed at hd
+    cases hc0 : f0.compressed with
+    | none =>
+      simp only [hc0, Option.isNone_none, if_true, FilesizeObj.new, bind_ok, pure_ok, hu0] at hd
+      obtain ⟨_, _, _, _, _, _, _, _, rfl⟩ := hd
+      exact ⟨u, u, rfl, rfl⟩
+    | some c =>
+      simp only [hc0, Option.isNone_some, Bool.false_eq_true, if_false, pure_ok] at hd
+      subst hd
+      exact ⟨u, c, hu0, hc0⟩
+
+theorem rftSize_cases (moop : Int) (x : Option (Int ⊕ FilesizeObj)) (f : Option FilesizeObj) (h : rftSize moop x = .ok f) :
+    (rftUsesSize moop = true ∧ ∃ g u c, f = some g ∧ g.uncompressed = some u ∧ g.compressed = some c) ∨ (rftUsesSize moop = false ∧ f = none) := by
+  unfold rftSize at h
+  by_cases hu : rftUsesSize moop = true
+  · left
+    simp only [hu, if_true] at h
+    cases x with
+    | none => simp at h
+    | some y =>
+      simp only [bind_ok, pure_ok] at h
+      obtain ⟨g, hg, rfl⟩ := h
+      obtain ⟨u, c, h1, h2⟩ := rftNormalize_both y g hg
+      exact ⟨hu, g, u, c, rfl, h1, h2⟩
+  · right
+    simp only [hu, Bool.false_eq_true, if_false] at h
+    split at h
+    · simp at h
+    · simp only [pure_ok] at h; exact ⟨by simpa using hu, h.symm⟩
+
+/-- what the independent decoder must find in a RequestFileTransfer frame -/
+def rftCanon (moop : Int) (path : Bytes) (dfi : Option Nat) (f : Option FilesizeObj) : Spec.ReqVal :=
+  .fileTransfer moop.toNat path (if rftUsesDfi moop then some (dfi.getD 0) else none) (f.map (·.width))
+    (f.bind (fun g => g.uncompressed.map Int.toNat)) (f.bind (fun g => g.compressed.map Int.toNat))
+
+/-- **RequestFileTransfer**: every accepted call transmits a frame that the independent ISO decoder reads back as the mode of operation, the
+    path, the DataFormatIdentifier (default 0x00 when the mode takes one) and, for the modes that carry sizes, the width and both sizes -/
+theorem rft_frame_decodes (moop : Int) (path : Bytes) (dfi : Option Nat) (fs : Option FilesizeArg) (r : Request) (view : Spec.SrvView)
+    (h : rftMakeRequest moop path dfi fs = .ok r) :
+    ∃ frame x f, r.getPayload = .ok frame ∧ rftBuildArg fs = .ok x ∧ rftSize moop x = .ok f ∧
+      Spec.decodeRequest view frame = some ⟨0x38, false, rftCanon moop path dfi f⟩ := by
+  obtain ⟨x, f, z, hx, hf, hz, hnone, hsome, hpay, hm, hp, hdlt⟩ := rft_layout_partial moop path dfi fs r h
+  refine ⟨_, x, f, hpay, hx, hf, ?_⟩
+  have hmo : (UInt8.ofNat moop.toNat).toNat = moop.toNat := toNat_ofNat_lt (by omega)
+  have hlen : path.length < 65536 := by omega
+  simp only [Spec.decodeRequest, show Spec.hasSubfn (0x38 : UInt8).toNat = false by decide, Bool.false_eq_true, if_false,
+    show (0x38 : UInt8).toNat = 0x38 by rfl, decodeNoSubfn_rft]
+  have hstep1 : Spec.decodeRft ([UInt8.ofNat moop.toNat] ++ toBE 2 path.length ++ path ++ (if rftUsesDfi moop = true then [UInt8.ofNat (dfi.getD 0)] else []) ++ z) =
+      some (rftCanon moop path dfi f) := by
+    unfold Spec.decodeRft
+    have e1 : Spec.pU8 ([UInt8.ofNat moop.toNat] ++ toBE 2 path.length ++ path ++ (if rftUsesDfi moop = true then [UInt8.ofNat (dfi.getD 0)] else []) ++ z) =
+        some (moop.toNat, toBE 2 path.length ++ path ++ ((if rftUsesDfi moop = true then [UInt8.ofNat (dfi.getD 0)] else []) ++ z)) := by
+      simp only [List.cons_append, List.nil_append, List.append_assoc, Spec.pU8_cons, hmo]
+    have e2 : Spec.pLen16 (toBE 2 path.length ++ path ++ ((if rftUsesDfi moop = true then [UInt8.ofNat (dfi.getD 0)] else []) ++ z)) =
+        some (path, (if rftUsesDfi moop = true then [UInt8.ofNat (dfi.getD 0)] else []) ++ z) := Spec.pLen16_append path _ hlen
+    simp only [e1, e2]
+    rcases rftSize_cases moop x f hf with ⟨hus, g, u, c, rfl, hu, hc⟩ | ⟨hus, rfl⟩
+    · -- modes 1, 3, 6: dfi, width, both sizes
+      have hud : rftUsesDfi moop = true := by
+        simp only [rftUsesSize, rftUsesDfi, Bool.or_eq_true, beq_iff_eq] at hus ⊢; omega
+      obtain ⟨hzz, hult, hclt, hw⟩ := hsome g rfl u c hu hc
+      have hd := hdlt hud
+      have hdfi : (UInt8.ofNat (dfi.getD 0)).toNat = dfi.getD 0 := toNat_ofNat_lt hd
+      have hwn : (UInt8.ofNat g.width).toNat = g.width := toNat_ofNat_lt hw
+      have b1 : (moop.toNat == 1 || moop.toNat == 3 || moop.toNat == 4 || moop.toNat == 6) = true := by
+        simp only [rftUsesDfi, Bool.or_eq_true, beq_iff_eq] at hud ⊢; omega
+      have b2 : (moop.toNat == 1 || moop.toNat == 3 || moop.toNat == 6) = true := by
+        simp only [rftUsesSize, Bool.or_eq_true, beq_iff_eq] at hus ⊢; omega
+      subst hzz
+      simp only [hud, if_true, b1, b2, Bool.not_true, Bool.false_eq_true, if_false, List.cons_append, List.nil_append, List.append_assoc, Spec.pU8_cons, hdfi, hwn]
+      rw [Spec.pBE_toBE g.width u.toNat _ hult]
+      simp only
+      have : toBE g.width c.toNat = toBE g.width c.toNat ++ [] := by simp
+      rw [this, Spec.pBE_toBE g.width c.toNat [] hclt]
+      simp [rftCanon, hud, hu, hc]
+    · have hz0 := hnone rfl
+      subst hz0
+      by_cases hud : rftUsesDfi moop = true
+      · have hd := hdlt hud
+        have hdfi : (UInt8.ofNat (dfi.getD 0)).toNat = dfi.getD 0 := toNat_ofNat_lt hd
+        have b1 : (moop.toNat == 1 || moop.toNat == 3 || moop.toNat == 4 || moop.toNat == 6) = true := by
+          simp only [rftUsesDfi, Bool.or_eq_true, beq_iff_eq] at hud ⊢; omega
+        have b2 : (moop.toNat == 1 || moop.toNat == 3 || moop.toNat == 6) = false := by
+          simp only [rftUsesSize, Bool.or_eq_false_iff, beq_eq_false_iff_ne] at hus ⊢; omega
+        simp [hud, b1, b2, Spec.pU8_cons, hdfi, rftCanon]
+      · have b1 : (moop.toNat == 1 || moop.toNat == 3 || moop.toNat == 4 || moop.toNat == 6) = false := by
+          simp only [rftUsesDfi, Bool.not_eq_true, Bool.or_eq_false_iff, beq_eq_false_iff_ne] at hud ⊢; omega
+        simp [hud, b1, rftCanon]
+  rw [hstep1]; rfl
+
 
 /-! ### Authentication -/
 
